@@ -191,8 +191,13 @@ def ti_corruptions(rng, table, n):
         else:
             choices = [("release", "version", rng.choice(["1.", "2b", "1..2"])), ("tree", "arch", ""), ("tree", "build_timestamp", rng.choice(["abc", "0", ""])),
                        ("release", "is_layered", "maybe")]
-            choices += [(s, "type", "bogus") for s in vsecs] + [(s, "id", "a-b") for s in vsecs]
+            choices += [(s, "type", rng.choice(["bogus", "layered-product", "Variant"])) for s in vsecs] + [(s, "id", "a-b") for s in vsecs]
             choices += [(s, sorted(t[s])[0], "/abs/img") for s in isecs if t[s]]
+            for isec in isecs:
+                # images listed for a platform that [tree] no longer names (the tree's own architecture included)
+                plat = isec[len("images-"):]
+                rest = [x for x in t.get("tree", {}).get("platforms", "").split(",") if x and x != plat]
+                choices.append(("tree", "platforms", ",".join(rest) or "zz"))
             if "checksums" in t and t["checksums"]:
                 pth = sorted(t["checksums"])[0]
                 choices += [("checksums", pth, rng.choice(["0123", "sha256:ab:cd", "x" * 33]))]
@@ -205,5 +210,7 @@ def ti_corruptions(rng, table, n):
                 continue
             t[sec][key] = v
             what = "value:%s.%s=%r" % (sec.split("-")[0], key, v)
+            if (sec, key) == ("tree", "platforms"):
+                what = "cross-field:tree.platforms=%r although an [images-*] section exists for a platform no longer listed" % v
         out.append({"text": render_ini(t), "what": what, "must_reject": True})
     return out
